@@ -8,15 +8,15 @@ CHECKS = {
          "Every supported operation on all 1-byte operand pairs is enumerated completely; 2/4/8/16-byte operands from a full boundary-grid cross product and boundary-biased random tapes. Each result (value, width, Err/unknown) of Bitvector::bin_op/un_op/cast/subpiece and BitvectorDomain is compared with a reference written from the P-Code manual. Exhaustive for 1 byte, sampled above: the right level because the property quantifies over a huge finite value space.",
          "Trusted: harness/src/refsem.rs as transcription of the P-Code reference; generator respects documented preconditions (equal widths, Bool ops on 0/1, shift amount operand <= 8 bytes).",
          "DESIGN.md §3 C01"),
- "C10": ("differential testing: generated IR programs x initial states executed by an independent IR interpreter before/after normalize_optimize (proptest tapes, shrinking)",
+ "C10": ("differential testing: generated IR programs x initial states executed by an independent IR interpreter before/after normalize_optimize (proptest tapes, shrinking); thorough tier adds a coverage-guided libFuzzer stage (cargo-fuzz) over the same tape decoder and oracle",
          "Generated multi-function programs containing the syntactic idioms the five optimizing passes match are run from 6 initial machine states each in the harness' own interpreter before and after normalize_optimize; event traces (reads, writes, calls, indirect jumps, returns, dead ends incl. all physical registers) must be equal; a failing case is attributed to the first pass after which traces differ. Exploration: random search with coverage labels and floors, no exhaustiveness.",
          "Trusted: irinterp/refsem as IR semantics (total: x/0:=0); temporaries are block-local; all registers havocked after calls; entry SP 64-byte aligned. Open known finding: CFG has no edge for CallOther returns (excluded class, counted).",
          "DESIGN.md §3 C10"),
- "C11": ("differential testing: generated P-Code blocks x initial states, independent P-Code interpreter (byte-array registers) vs independent IR interpreter on the block lifted by the real code (proptest tapes, shrinking)",
+ "C11": ("differential testing: generated P-Code blocks x initial states, independent P-Code interpreter (byte-array registers) vs independent IR interpreter on the block lifted by the real code (proptest tapes, shrinking); thorough tier adds a coverage-guided libFuzzer stage (cargo-fuzz) over the same tape decoder and oracle",
          "Random register tables with nested sub-registers and random typed P-Code blocks (all integer mnemonics, sub-registers, same-name smaller varnodes, temporaries, constants, RAM operands, LOAD/STORE, cast-to-base idioms, every jump kind) are serialized in the plugin's JSON shape, deserialized, normalized and lifted by the real code; both interpreters run from 4 states; final base registers, ordered memory writes, reads and the branch decision/jump target must agree. Exploration with coverage floors.",
          "Trusted: harness P-Code interpreter/refsem/irinterp. Generator emits only operand kinds the Ghidra plugin emits (no RAM outputs for LOAD, CBRANCH/RETURN operands not in RAM, BOOL ops on 0/1 values).",
          "DESIGN.md §3 C11"),
- "C12": ("generated P-Code programs pushed through the real lifting + normalization chain; validity predicate = independent typing walk recomputing all expression sizes (proptest tapes, shrinking)",
+ "C12": ("generated P-Code programs pushed through the real lifting + normalization chain; validity predicate = independent typing walk recomputing all expression sizes (proptest tapes, shrinking); thorough tier adds a coverage-guided libFuzzer stage (cargo-fuzz) over the same tape decoder and oracle",
          "Whole generated P-Code programs (several functions/blocks, same generator as C11) are lifted and run through normalize_basic and normalize_optimize; after each stage every Def/Jmp is size-checked by the harness' own typing rules (same-size operands, Piece/Subpiece/extension consistency, assignment size = variable size, load/store address = pointer size, 1-byte conditions); a failure names the stage/pass.",
          "Trusted: the typing rules in checks/c12.rs (from the IR documentation); generated P-Code is well-typed by construction.",
          "DESIGN.md §3 C12"),
@@ -28,7 +28,7 @@ CHECKS = {
          "Programs of 1..9 functions with self/ring/back/parallel calls plus extern and indirect calls; for every ordered pair find_call_sequences_to_target must return exactly the call TIDs u->v with R*(source,u) and R*(v,target); the call graph must have one node per function and the exact multiset of direct-call edges. All pairs per program are enumerated.",
          "Trusted: the closure characterisation in checks/c24.rs (from the doc comment of the function). Details: notes/C24.md.",
          "DESIGN.md §3 C24"),
- "C14": ("generated multi-function programs; reference = independent backward upward-exposed-use dataflow on the normalized IR; inclusion oracle demanded ⊆ reported (proptest tapes, shrinking)",
+ "C14": ("generated multi-function programs; reference = independent backward upward-exposed-use dataflow on the normalized IR; inclusion oracle demanded ⊆ reported (proptest tapes, shrinking); thorough tier adds a coverage-guided libFuzzer stage (cargo-fuzz) over the same tape decoder and oracle",
          "Generated projects read/write calling-convention parameter registers in every syntactic position (assignments, load/store addresses, store values, conditions, indirect jump/call/return targets, declared parameters of extern calls) behind partial overwrites, loops and calls; compute_function_signatures runs on the pipeline-normalized program; every register the oracle's dataflow finds read-before-written from the entry (paths cut at every call) must be a reported parameter. One-sided by design (the analysis may over-approximate).",
          "Trusted: the demand dataflow in checks/c14.rs, deliberately an under-approximation of 'can be read' (bare-variable spills and arguments of non-returning calls are not demanded, as documented by the implementation).",
          "DESIGN.md §3 C14"),
@@ -36,7 +36,7 @@ CHECKS = {
          "Well-formed generated programs (shared blocks, all jump kinds, internal/extern/indirect/non-returning calls, empty functions, recursion) are passed to get_program_cfg; the node multiset and the edge multiset (labelled by term ids, edge kind and untaken-conditional annotation) must equal the harness' specification exactly; get_entry_nodes_of_subs must map exactly the non-empty functions to their entry nodes.",
          "Trusted: the specification in checks/c08_spec.rs derived from the property statement and the module documentation of graph.rs. Details: notes/C08.md.",
          "DESIGN.md §3 C08"),
- "C09": ("generated raw extractor-shaped programs with injected irregularities; validity predicates over the output of normalize_basic + CFG equality with the C08 specification (proptest tapes, shrinking)",
+ "C09": ("generated raw extractor-shaped programs with injected irregularities; validity predicates over the output of normalize_basic + CFG equality with the C08 specification (proptest tapes, shrinking); thorough tier adds a coverage-guided libFuzzer stage (cargo-fuzz) over the same tape decoder and oracle",
          "Raw programs with dangling branch/call/return/hint targets, non-entry blocks shared between functions, duplicated block/def/jmp ids, calls to no_return symbols and to functions without return, empty functions and recursion are normalized by normalize_basic (must not panic); invariants: unique ids, original entry block first, all targets exist and intraprocedural ones lie in the same function, non-returning calls return to the caller's artificial sink, CFG construction succeeds and equals the specification. Floors on each irregularity kind.",
          "Trusted: invariant predicates in checks/c09.rs; generator never duplicates function ids or function entry blocks (excluded by the property). Details: notes/C09.md.",
          "DESIGN.md §3 C09"),
@@ -44,7 +44,7 @@ CHECKS = {
          "For pairs of abstract values of every kind (BitvectorDomain, IntervalDomain with widening hints/delays, DataDomain over both, Taint, DomainMap under Union/Intersect/MergeTop, MemRegion) the merge must contain every concrete member of either input (members enumerated at 1 byte, sampled above), merging a value with itself or with something already absorbed must not change the represented set (both argument orders, also after a further merge), merge_with must agree with merge. All four widening branches are labelled with floors.",
          "Trusted: the concretization functions in checks/c03.rs written from the type documentation (widening hints are not part of the value set). Details: notes/C03.md.",
          "DESIGN.md §3 C03"),
- "C05": ("model-based (stateful) testing: operation histories decoded from tapes, reference cell store compared after every step; failing histories additionally delta-debugged",
+ "C05": ("model-based (stateful) testing: operation histories decoded from tapes, reference cell store compared after every step; failing histories additionally delta-debugged; thorough tier adds a coverage-guided libFuzzer stage (cargo-fuzz) over the same tape decoder and oracle",
          "Histories of up to 40 operations (writes through add/insert_at_byte_index, removals, top-writes, interval top-marking, offset shifts, clear_top_values, merges, clones, reads) over two regions and two cell types are applied to MemRegion and to a plain reference store (overlap decided by scanning all cells); after every step: no overlapping cells, no top cells, iter() equals the model, reads at all offsets -26..26 x sizes agree. Floors on histories with partial overlaps and merges after divergence.",
          "Trusted: the reference store semantics derived from the property statement and method docs. Details: notes/C05.md.",
          "DESIGN.md §3 C05"),
@@ -52,11 +52,11 @@ CHECKS = {
          "normalize must preserve the language (all 255 strings over {a,b} up to length 7), append must contain every concatenation, merge and widen every member of either input; CharacterInclusionDomain exhaustively over all (certain, possible) pairs incl. Top. Non-returning calls are detected by a heartbeat monitor (45 s; normal duration microseconds).",
          "Trusted: the DP matcher's reading of the brick semantics ([S]^{m,M}, u32::MAX = unbounded). Out of scope by the quantifier: two adjacent unbounded bricks. Details: notes/C06.md.",
          "DESIGN.md §3 C06"),
- "C13": ("differential/abstract-interpretation soundness testing: generated loop-and-branch functions analysed by the real pipeline, executed from generated initial states by an independent interpreter; oracle = concretization membership at every block arrival (proptest tapes, shrinking)",
-         "Single-function programs (register arithmetic, flags, comparisons, stack loads/stores at constant offsets through RSP/RBP, SP adjustments, small-constant addresses; no calls) go through normalize, CFG, function signatures and pointer inference; 8 concrete runs each; at every block arrival the block must have an analysis state and each register's concrete value must be a member of its abstract value (own interval membership, parameter identifiers read as entry values, unknown identifiers lenient). Unstabilized fixpoints are skipped (premise) and counted.",
-         "Trusted: irinterp/refsem, dom.rs membership; aliasing initial states (violating the analysis' documented distinct-identifier assumption) are classified separately.",
-         "DESIGN.md §3 C13"),
- "C15": ("generated programs; reference = exact exploration of the finite product (block, tainted-variable set) by the rules of the property; equality of reported and expected source sets (proptest tapes, shrinking)",
+ "C13": ("differential/abstract-interpretation soundness testing: generated functions with loops, branches, extern/indirect calls and an executed internal callee, analysed by the real pipeline and executed from generated initial states by an independent interprocedural interpreter; oracle = concretization membership at every block arrival (proptest tapes, shrinking); thorough tier adds a coverage-guided libFuzzer stage (cargo-fuzz) over the same tape decoder and oracle",
+         "Programs (register arithmetic, flags, comparisons incl. sub-register views, stack loads/stores through RSP/RBP, SP adjustments, small-constant and register-based addresses, structured counting loops, constant-joining diamonds, calls to malloc / pure / pointer-taking / stack-parameter / unknown extern functions, indirect calls, a small internal callee) go through normalize, CFG, function signatures and pointer inference. From 8 initial states each (6 separated, 2 aliasing) the harness' interpreter runs the function (extern calls: one calling-convention-obeying adversary that clobbers caller-saved registers and writes through pointer and stack parameters; internal calls are executed with one activation record per call) and checks at every block arrival, also inside the callee and after returns, that the block has an analysis state and every register's concrete value is a member of its abstract value (identifiers evaluated against the activation's entry snapshot). Two memory models (valid global segment / literal with poison tracking).",
+         "Trusted: irinterp/refsem, dom.rs membership, the extern-call adversary (one legal behaviour per call). Open known findings: identifier-alias assumption (aliasing initial states; callee activations in which one byte is reached through two disjoint identifier sets), indirect calls with non-Top target treated as not returning.",
+         "DESIGN.md §3 C13, §8.3"),
+ "C15": ("generated programs; reference = exact exploration of the finite product (block, tainted-variable set) by the rules of the property; equality of reported and expected source sets (proptest tapes, shrinking); thorough tier adds a coverage-guided libFuzzer stage (cargo-fuzz) over the same tape decoder and oracle",
          "Programs with allocation calls, copies/arithmetic over a taint-capable register pool (callee-saved register, temporary, flags), overwrites, loads/stores with possibly dependent addresses, checks on dependent and independent conditions, loops, extern/indirect/internal calls and returns run through the real pipeline and cwe_476::check_cwe; the set of reported source calls must equal the specification's (reported sink must be a reachable sink); on programs with a mixed conditional block only reported => expected is required and a miss is the known class C15:mixed-condition-node.",
          "Trusted: the exploration in checks/c15.rs; dependence is syntactic on the normalized program; store values come from a clean pool so the value flows through registers only (premise of the property).",
          "DESIGN.md §3 C15"),
@@ -70,13 +70,13 @@ CHECKS = {
          "DESIGN.md §3 C17"),
  "C18": ("generated constant-computing call blocks; reference = independent concrete block evaluator (refsem) + threshold predicate (proptest tapes, shrinking)",
          "One block per case computes the parameter(s) of umask / a size-taking function from constants through arithmetic, copies, stack stores and loads; CWE560 must warn iff v > 0o177 and v != 0o777, CWE467 iff some parameter equals the pointer size.",
-         "Trusted: the block evaluator; values passing a signed overflow are compared one-sidedly (Interval documents precision loss there). Details: notes/C18.md.",
+         "Trusted: the byte-exact block evaluator; values passing a signed overflow or read back from a partially overwritten / partially read stack slot are compared one-sidedly (documented precision loss). Details: notes/C18.md.",
          "DESIGN.md §3 C18"),
- "C19": ("exhaustive boundary enumeration per generated segment layout (every address around every segment x sizes x all query functions) + generated ELF/PE/bare-metal inputs; reference = byte-array model",
+ "C19": ("exhaustive boundary enumeration per generated segment layout (every address around every segment x sizes x all query functions) + generated ELF/PE/bare-metal inputs; reference = byte-array model; thorough tier adds a coverage-guided libFuzzer stage (cargo-fuzz) over the same tape decoder and oracle",
          "Random layouts of disjoint segments (adjacent, gap 1, far; shuffled; both endiannesses) and every address from base-2 to base+len+2: read, read_string_until_null_terminator, is_global_memory_address, is_address_writeable, interval queries, get_ro_data_pointer_at_address, new_from_bare_metal and the MemorySegment constructors must agree with a byte-array model.",
          "Trusted: the byte-array model in checks/c19.rs and its ELF/PE writers. Details: notes/C19.md.",
          "DESIGN.md §3 C19"),
- "C20": ("grammar-based generation with round-trip oracle (the generating derivation) + exhaustive grid of 8100 small format strings (proptest tapes, shrinking)",
+ "C20": ("grammar-based generation with round-trip oracle (the generating derivation) + exhaustive grid of 8100 small format strings (proptest tapes, shrinking); thorough tier adds a coverage-guided libFuzzer stage (cargo-fuzz) over the same tape decoder and oracle",
          "Format strings derived from the supported grammar (literals deliberately containing conversion letters and digits, %% escapes, flags, widths, precisions, all conversion and length forms) x three datatype tables; parse_format_string_parameters must return one (type,size) per argument-consuming conversion in order, and Err iff a long/long long/long double form occurs.",
          "Trusted: the documented conversion-to-type table copied into checks/c20.rs. Details: notes/C20.md.",
          "DESIGN.md §3 C20"),
@@ -98,7 +98,7 @@ CHECKS = {
          "DESIGN.md §3 C21"),
  "C22": ("generated multi-trigger inputs x check subsets/default/kernel-module inputs through the real CLI; oracle = set algebra on warning names relative to the all-checks run + source scan for --module-versions",
          "A trigger pack makes many syntactic checks fire at once; names in the output must equal F∩S for --partial, F without CWE78 for the default run, the kernel-module subset for ET_REL inputs with .modinfo/.gnu.linkonce.this_module; --module-versions must list every module once with its version.",
-         "Trusted: the kernel-module reference set is the --partial run with the modules named in lkm_config.json (see notes/C22.md).",
+         "Trusted: the kernel-module reference set is the --partial run with the modules named in lkm_config.json; a kernel-module twin of the user-space program checks that an explicit --partial is not filtered by the kernel-module subset (see notes/C22.md).",
          "DESIGN.md §3 C22"),
  "C23": ("metamorphic testing: the same command line executed repeatedly in fresh processes (fresh hash seeds) on generated inputs biased to hash-order-sensitive shapes; oracle = byte equality of stdout",
          "Inputs with several non-entry blocks shared between functions, several sinks per source and many extern symbols are analysed k times (6 quick / 14 thorough) with all checks, JSON and plain output; all outputs must be byte-identical. Hash seeds cannot be chosen, only re-drawn: a dependence showing with probability p per run is missed with probability (1-p)^(k-1) per input.",
